@@ -13,6 +13,9 @@ REJECT = ("busy", "gone", "n/a", "noit", "bad-op", "blocked", "bad", "stale", "n
 
 
 _hang_files = []
+_phase = {"all_suites_ran": False, "shared": None}
+_reported = {}                   # oracle category -> suites that reported it
+MAX_SUITES_PER_CATEGORY = 2
 
 
 def _cleanup_hang_files():
@@ -146,10 +149,29 @@ class GenSuite(Suite):
 
     def harness_args(self):
         """a fresh hang-budget file per harness run (see the watchdog in h_generator.cpp): after a few hung operations the
-        remaining cases of that run are skipped instead of each waiting for the watchdog"""
+        remaining cases of that run are skipped instead of each waiting for the watchdog. Once every suite has run (the runner is
+        shrinking failing cases now, one harness run per attempt) all runs share one budget file, so a change that makes accesses
+        hang costs a few watchdog time-outs in total, not one per shrinking attempt."""
+        if _phase["all_suites_ran"]:
+            if _phase["shared"] is None:
+                _phase["shared"] = os.path.join(tempfile.gettempdir(), "c13_hang_%d_shrink" % os.getpid())
+                _hang_files.append(_phase["shared"])
+            return ("--hangfile", _phase["shared"])
         p = os.path.join(tempfile.gettempdir(), "c13_hang_%d_%d" % (os.getpid(), len(_hang_files)))
         _hang_files.append(p)
         return ("--hangfile", p)
+
+    def cap(self, msgs):
+        """the runner shrinks and reports one failing case per oracle category *per suite*; a library change that breaks a category
+        breaks it in most of the 13 suites: report it from the first MAX_SUITES_PER_CATEGORY suites only"""
+        out = []
+        for m in msgs:
+            suites = _reported.setdefault(m.split(":")[0], [])
+            if self.name in suites or len(suites) < MAX_SUITES_PER_CATEGORY:
+                if self.name not in suites:
+                    suites.append(self.name)
+                out.append(m)
+        return out
 
     # ------------------------------------------------------------------ generator
     def gen_script(self, rng, mode):
@@ -333,6 +355,9 @@ class GenSuite(Suite):
 
     # ------------------------------------------------------------------ oracle: the statement of C13 on the trace
     def oracle(self, case, out):
+        return self.cap(self._oracle(case, out))
+
+    def _oracle(self, case, out):
         msgs = []
         lines = case["lines"]
         mode = lines[0].split()[2].lstrip("r")      # rv / ra: reference-typed generators, same statement
@@ -741,7 +766,12 @@ class BatonSuite(Suite):
     def normalize(self, lines):
         return [l for l in lines if not l.startswith("s ")]
 
+    cap = GenSuite.cap
+
     def oracle(self, case, out):
+        return self.cap(self._oracle(case, out))
+
+    def _oracle(self, case, out):
         msgs = []
         lines = case["lines"]
         mode = lines[0].split()[2]
@@ -823,6 +853,10 @@ class BatonSuite(Suite):
         return any(l.startswith("k ") for l in out) and sum(1 for l in out if l.startswith("c< next") or l.startswith("c< call")) >= 2
 
     def stats(self, cases, outs):
+        _phase["all_suites_ran"] = True      # this is the last suite of the check (see GenSuite.harness_args)
+        return self._stats(cases, outs)
+
+    def _stats(self, cases, outs):
         scen = {" | ".join(c["lines"][:-2]) for c in cases}
         resumed = sum(sum(1 for l in outs.get(str(c["id"]), []) if l.startswith("k ")) for c in cases)
         return {"scenarios": len(scen), "schedules": len(cases), "schedule_length": len(cases[0]["lines"][-2].split()) - 1 if cases else 0,
